@@ -376,7 +376,8 @@ Qed.
 Lemma uv_step : forall s o, gen_bound s -> o <> ORestart -> uv s (fst (step' s o)).
 Proof.
   intros s o G Ho. pose proof (uv_refl s G) as U. destruct o; cbn [step]; try contradiction.
-  - (* create *) unfold op_create. destruct (gen_next clock s) as [g s1] eqn:E.
+  - (* create *) unfold op_create. destruct (cf_create_gen_in_tx fx && bad_create_name name); [assumption|].
+    destruct (gen_next clock s) as [g s1] eqn:E.
     destruct (uv_gen_next s s g s1 U E) as [U1 V]. destruct g as [v|]; [|assumption].
     repeat match goal with |- uv _ (fst (if ?b then _ else _)) => destruct b; cbn [fst]; [assumption|] end.
     apply uv_add_all; [assumption | lia].
